@@ -321,8 +321,9 @@ def setEvaluationTimes (T : Nat) (value : List Rat) : Option (List Rat) :=
   else if value.any (fun x => decide (x < 0)) then none
   else some (union1d value [0, tEnd])
 
-/-- `evaluation_time = t / T * 1e3` stored in each `QutipResult`. -/
-def relTime (T : Nat) (t : Rat) : Rat := t / T * 1000
+/-- `evaluation_time = t / (T / 1000)` stored in each `QutipResult` (the divisor is the number the end
+point `T / 1000` is built from, so the end point is filed under exactly 1: repair of finding F52). -/
+def relTime (T : Nat) (t : Rat) : Rat := t / ((T : Rat) / 1000)
 
 /-! ## 7. `EmulationConfig.__init__` normalisation and its re-creation -/
 
